@@ -38,6 +38,8 @@ class _Transport:
         self.written = []
         self.disconnecting = False
         self.paused = False
+        self.held = None        # policy "held": segments that arrived while the client had paused the transport
+        self.proto = None
 
     def write(self, data):
         self.written.append(bytes(data))
@@ -56,6 +58,10 @@ class _Transport:
 
     def resumeProducing(self):
         self.paused = False
+        # a transport that kept the bytes back while paused hands them over from inside resumeProducing (in-memory
+        # transports, pumps and TLS layers do): the protocol is re-entered from its own deliverBody call
+        while self.held and not self.paused and not self.disconnecting:
+            self.proto.dataReceived(self.held.pop(0))
 
     def stopProducing(self):
         self.disconnecting = True
@@ -111,17 +117,20 @@ class _Producer:
             self.finished.callback(None)
 
 
-POLICIES = ("immediate", "later", "later2", "buffered")
+POLICIES = ("immediate", "later", "later2", "buffered", "held")
 # immediate: deliverBody(consumer) inside the request Deferred's callback
 # later:     deliverBody right after the dataReceived call in which the Deferred fired has returned
 # later2:    deliverBody after two more segments have been delivered (or at connection loss if there are fewer):
 #            first part of the body through the Response's buffer, the rest live
 # buffered:  deliverBody only after the connection has been lost (everything went through the Response's buffer)
+# held:      the transport honours pauseProducing: segments that arrive while it is paused are kept back and handed to
+#            the protocol synchronously from inside resumeProducing; deliverBody is called once one segment has been
+#            kept back (or just before the connection loss is reported: a paused transport does not notice the loss)
 # For later2 / buffered the transport double keeps delivering although the parser paused it (pauseProducing is
 # advisory: data already read, e.g. by a TLS layer, still arrives); the Response is specified to buffer it.
 
 
-def run_client(method, segments, policy, persistent, clean_close, finish_at=None):
+def run_client(method, segments, policy, persistent, clean_close, finish_at=None, abort=False):
     """Issue one request, feed `segments`, then lose the connection.  Returns (fired, fired_at, consumer,
     escaped) where fired is the list of results the request Deferred delivered, fired_at the index of the
     segment during which it fired (len(segments) = at connection loss) and escaped a description of an
@@ -129,10 +138,15 @@ def run_client(method, segments, policy, persistent, clean_close, finish_at=None
 
     finish_at None: the request has no body (fully written at once).  Otherwise the request has a body producer
     that finishes just before segment number finish_at is delivered (len(segments): just before the connection
-    loss; -1: never)."""
+    loss; -1: never).
+
+    abort: the application calls HTTP11ClientProtocol.abort() after the last segment; the connection loss that
+    follows is the transport's answer to it."""
     tr = _Transport()
     proto = HTTP11ClientProtocol()
     proto.makeConnection(tr)
+    if policy == "held":
+        tr.held, tr.proto = [], proto
     consumer = _Consumer()
     fired = []
     state = {"delivered": False, "at": None, "now": 0, "since": 0}
@@ -159,18 +173,30 @@ def run_client(method, segments, policy, persistent, clean_close, finish_at=None
             if tr.disconnecting:
                 break  # the client asked for the connection to be closed: a transport delivers nothing more
             have = bool(fired) and isinstance(fired[0], Response)
-            proto.dataReceived(seg)
+            if tr.held is not None and (tr.paused or tr.held):
+                tr.held.append(seg)
+            else:
+                proto.dataReceived(seg)
             if fired and isinstance(fired[0], Response) and not state["delivered"]:
                 if have:
                     state["since"] += 1
-                if policy == "later" or (policy == "later2" and state["since"] >= 2):
+                if policy == "later" or (policy == "later2" and state["since"] >= 2) or (policy == "held" and tr.held):
                     deliver(fired[0])
         state["now"] = len(segments)
         if finish_at == len(segments):
             producer.finish()
+        if policy == "held" and fired and isinstance(fired[0], Response) and not state["delivered"]:
+            deliver(fired[0])
+        if tr.held:
+            tr.resumeProducing()
+        if abort:
+            aborted = []
+            proto.abort().addBoth(aborted.append)
         proto.connectionLost(Failure(ConnectionDone() if clean_close else ConnectionLost()))
         if fired and isinstance(fired[0], Response) and not state["delivered"]:
             deliver(fired[0])
+        if abort and aborted != [None]:
+            return fired, state["at"], consumer, "the Deferred returned by abort() fired %r" % (aborted,)
     except Exception as e:  # nothing may escape into the reactor
         return fired, state["at"], consumer, "%s: %s" % (type(e).__name__, e)
     return fired, state["at"], consumer, None
@@ -477,6 +503,45 @@ class TruncatedResponses(Bounded):
         return None
 
 
+class AbortedByApplication(Bounded):
+    prop = "C23"
+    title = ("the connection loss is the application's own doing (HTTP11ClientProtocol.abort() after the bytes received "
+             "so far): same oracle as TruncatedResponses -- the request Deferred fires exactly once, the body consumer "
+             "gets the body bytes received and exactly one connectionLost (ResponseDone / PotentialDataLoss / failure)")
+    scope = ("the 8 core responses (Content-Length, chunked, close-delimited, interim + chunked with trailers, empty "
+             "Content-Length body, 204, HEAD, 304), abort after every byte count 0..len, delivery in one segment, byte at a "
+             "time and every 2-way split, all five deliverBody timings, clean and unclean loss report")
+    functions = ["HTTP11ClientProtocol.abort", "HTTP11ClientProtocol._connectionLost_ABORTING",
+                 "HTTP11ClientProtocol._finishResponse", "HTTPClientParser.connectionLost",
+                 "_IdentityTransferDecoder.noMoreData", "Response._bodyDataFinished"]
+
+    def cases(self, tier, rng):
+        for spec in _core_specs():
+            n = len(build(spec)["wire"])
+            for policy in POLICIES:
+                for t in range(0, n + 1):
+                    yield (spec, policy, t)
+
+    def nontrivial(self, case):
+        return case[2] > 0
+
+    def check(self, case):
+        spec, policy, t = case
+        model = build(spec)
+        stream = model["wire"][:t]
+        want = expect(model, t)
+        segmentations = [[stream] if stream else [], [stream[i:i + 1] for i in range(t)]]
+        segmentations += [cut(stream, [i]) for i in range(1, t)]
+        for segs in segmentations:
+            for clean in (True, False):
+                obs = run_client(spec[0], segs, policy, spec[8], clean, abort=True)
+                k = seg_index_of(segs, model["H"] - 1)
+                bad = judge(want, obs, k, len(segs), model["status"])
+                if bad:
+                    return "%s; abort() after stream %r cut %r" % (bad, stream, [len(s) for s in segs])
+        return None
+
+
 # ---------------------------------------------------------------------------------------------------------
 # h11-serialized responses, judged by h11 parsing the same truncated stream as a client
 # ---------------------------------------------------------------------------------------------------------
@@ -722,4 +787,4 @@ class RequestStillTransmitting(Bounded):
         return None
 
 
-BOUNDED = [TruncatedResponses, H11Responses, RandomLarge, RequestStillTransmitting]
+BOUNDED = [TruncatedResponses, H11Responses, RandomLarge, RequestStillTransmitting, AbortedByApplication]
